@@ -33,6 +33,20 @@ Theorem lincomb_correct :
 Proof. exact @lincomb_impl_correct. Qed.
 Print Assumptions lincomb_correct.
 
+(* the size only selects the regime: the conclusion holds for every value of x1.size
+   (used by the correspondence of >= 50000-entry arrays, which evaluates the model with the
+   true size on one period of periodic arrays) *)
+Theorem lincomb_correct_any_size :
+  forall (T : Type) (N : Num T) (F : NumField T)
+         (floating blas_dtype : bool) (f1 f2 fo : bool * bool) (size : Z)
+         (a b : T) (i1 i2 io : nat) (s : store T),
+  length (s i1) = length (s i2) -> length (s io) = length (s i1) ->
+  exists s', lincomb_impl_sz (fun u => u) floating blas_dtype [f1; f2; fo] size a i1 b i2 io s = Ok s'
+          /\ s' io = vlin a (s i1) b (s i2)
+          /\ forall j, j <> io -> s' j = s j.
+Proof. exact @lincomb_impl_sz_correct. Qed.
+Print Assumptions lincomb_correct_any_size.
+
 (* T1b  the regenerated dispatch + _blas_is_applicable + ravel-order rule: whenever the BLAS
    branch is chosen, out.data.ravel(order) is a view of out and the dtype is a BLAS dtype,
    i.e. the in-place BLAS calls really update out. *)
